@@ -19,6 +19,7 @@ type Config struct {
 	MaxAlloc     int64    // largest make()
 	MaxPaths     int      // path budget per harness
 	NoInit       []string // package path prefixes whose initialisers are never run
+	ForceInit    []string // package paths whose initialisers run although a default no-init prefix covers them
 	Mode         term.Mode
 	Solver       string
 	Solver2      string // optional cross-check solver for assertion queries
@@ -33,6 +34,8 @@ type Config struct {
 	Verbose      bool
 	OneShot      bool // decide assertion queries in a fresh solver process (full tactic pipeline)
 	OneShotAll   bool // decide every query (branches too) in a fresh solver process
+	XorNF        bool // keep GF(2)-linear bit-vector terms in xor normal form (term/xornf.go)
+	IfConv       bool // merge side-effect-free if/else diamonds into ite terms instead of forking (zifconv.go)
 	NoModelGuide bool // disable model-guided branching (see zmodel.go)
 	Thorough     bool
 	Concrete     map[string]string // when set: nondet values are taken from here (concrete run)
@@ -50,6 +53,11 @@ var defaultNoInit = []string{
 }
 
 func (c *Config) noInit(path string) bool {
+	for _, p := range c.ForceInit {
+		if path == p {
+			return false
+		}
+	}
 	for _, p := range c.NoInit {
 		if path == p || strings.HasPrefix(path, p) && (strings.HasSuffix(p, "/") || strings.HasPrefix(path, p+"/")) {
 			return true
@@ -356,11 +364,17 @@ type pathState struct {
 }
 
 func (i *interp) decide(cond *term.T, what string) bool {
+	if i.cfg.XorNF {
+		cond = i.ctx.GaussEq(cond)
+	}
 	if cond.IsTrue() {
 		return true
 	}
 	if cond.IsFalse() {
 		return false
+	}
+	if i.spec > 0 {
+		panic(specAbort{})
 	}
 	p := i.path
 	c := i.ctx
